@@ -150,6 +150,8 @@ class Machine:
         if not pc:
             return None
         s, n, d, c = pc
+        if not self.deletable(c) or not self.deletable(s) and d is not s:
+            return None
         return {"op": "del_cells", "space": s.path(), "name": n, "how": self.rng.choice(["delattr", "delitem"])}
 
     def g_rename_cells(self):
@@ -242,6 +244,32 @@ class Machine:
                     walk(c.formula.get("lets"))
         return names
 
+    def objref_targets(self):
+        """Spaces and cells that some object-valued reference points at."""
+        out = set()
+        holders = [self.ref] + list(self.ref.all_spaces())
+        for h in holders:
+            for r in h.refs.values():
+                v = r.value
+                if isinstance(v, (rm.RSpace, rm.RCells)):
+                    out.add(id(v))
+                elif isinstance(v, tuple) and v and v[0] == "cells-of":
+                    out.add(id(v[1]))
+        return out
+
+    def deletable(self, obj):
+        """Deleting the target of an object-valued reference leaves a dangling reference whose behaviour inside
+        formulas depends on when their namespace was last rebuilt (known finding): excluded unless requested."""
+        if self.cfg.get("dangling_objrefs"):
+            return True
+        t = self.objref_targets()
+        if isinstance(obj, rm.RSpace):
+            for s in obj.walk():
+                if id(s) in t or any(id(c) in t for c in s.cells.values()):
+                    return False
+            return True
+        return id(obj) not in t
+
     def space_editable(self, s):
         if self.cfg.get("untracked_space_paths"):
             return True
@@ -252,7 +280,7 @@ class Machine:
 
     def g_del_space(self):
         s = gen.pick_space(self.rng, self.ref)
-        if not s or not self.space_editable(s):
+        if not s or not self.space_editable(s) or not self.deletable(s):
             return None
         return {"op": "del_space", "space": s.path(), "how": self.rng.choice(["delattr", "delitem"])}
 
